@@ -18,7 +18,8 @@ _TALLY = ("S.count_true(" + _FLAGS_P + ") + S.count_true(" + _FLAGS_F + ") + S.c
 contract("xdoctest.runner:_run_examples",
          params={"enabled_examples": "reclist[DocTest]", "verbose": "int", "config": "Optional[Val]", "_log": "Logger"},
          returns="RunReport",
-         ensures=[("total", "result['n_total'] == len(enabled_examples)"),
+         ensures=[("action", "result['action'] == 'run_examples'"),
+                  ("total", "result['n_total'] == len(enabled_examples)"),
                   ("failed-list-size", "len(result['failed']) == result['n_failed']"),
                   ("at-most-total", "result['n_passed'] + result['n_failed'] + result['n_skipped'] <= result['n_total']")],
          loops={0: LoopSpec(
@@ -94,3 +95,26 @@ contract("xdoctest.runner:doctest_module#gather",
          note="dropped: everything before `gather_all =` (argument handling); the parse step (examples is then an arbitrary "
               "list of DocTest objects); the zero-argument-function fallback that only runs when nothing was gathered",
          sentinel=("run-returns-something-else", "implies(command != 'list' and command != 'dump', result['action'] == 'list')"))
+
+
+# interface of doctest_module as __main__.main sees it (assumed here; its run/list/dump switch is the region above)
+contract("xdoctest.runner:doctest_module",
+         params={"module_identifier": "Val", "command": "Val", "argv": "Val", "exclude": "Val", "style": "Val",
+                 "verbose": "Val", "config": "Val", "durations": "Val", "analysis": "Val"},
+         returns="RunReport", trusted=True,
+         ensures=[("no-tally-for-list-dump", "implies(result['action'] != 'run_examples', result['n_failed'] == 0)")],
+         raises={"BaseException*?": None},
+         note="T: the summary of list/dump has no n_failed key; it is represented with n_failed == 0, which is what "
+              "main's run_summary.get('n_failed', 0) reads")
+
+contract("xdoctest.__main__:main#tail",
+         params={"modname": "Val", "style": "Val", "command": "Val", "config": "Val", "durations": "Val", "analysis": "Val"},
+         returns="int",
+         ensures=[("exit-status", "ev_count('doctest_module') == 1 and "
+                                  "(result == 1) == (ev_arg('doctest_module', 0, 'result')['n_failed'] > 0)"),
+                  ("zero-or-one", "result == 0 or result == 1")],
+         raises={"BaseException*?": None},
+         props=["C10", "C15"],
+         opts={"native": False, "region": {"from": "run_summary = xdoctest.doctest_module("}},
+         note="dropped: command-line parsing before the call of doctest_module",
+         sentinel=("always-zero", "result == 0"))
